@@ -371,6 +371,9 @@ func (g *Gen) callInner(x ssa.Value, cc *ssa.CallCommon, st *State) {
 			}
 		}
 		g.assume(st, "(>= "+g.heapGet(st, "alloc")+" "+oldAlloc+")")
+		for _, c := range sortedBoolKeys(done) {
+			g.wfComp(st, c)
+		}
 	}
 	if ct.NoReturn {
 		st.r = "false"
@@ -482,6 +485,34 @@ func (g *Gen) callScope(vars map[string]Val) map[string]Val {
 	for k, v := range g.params {
 		if _, ok := out[k]; !ok {
 			out[k] = v
+		}
+	}
+	// named local arrays declared in a block that does not dominate this point are still
+	// memory objects of the function: readable by name when the name is unique
+	if g.curSt != nil {
+		cnt := map[string]int{}
+		var arrs []*ssa.Alloc
+		for _, b := range g.fn.Blocks {
+			for _, in := range b.Instrs {
+				if a, ok := in.(*ssa.Alloc); ok && a.Comment != "" {
+					cnt[a.Comment]++
+					if _, isArr := a.Type().(*types.Pointer).Elem().Underlying().(*types.Array); isArr {
+						arrs = append(arrs, a)
+					}
+				}
+			}
+		}
+		for _, a := range arrs {
+			if _, ok := out[a.Comment]; ok || cnt[a.Comment] != 1 {
+				continue
+			}
+			v, ok := g.vals[a]
+			if !ok {
+				continue
+			}
+			at := a.Type().(*types.Pointer).Elem().Underlying().(*types.Array)
+			es := g.m.sortOf(at.Elem())
+			out[a.Comment] = Val{S: sel(g.heapGet(g.curSt, g.m.compSliceHeap(es)), v.S), Sort: "(Array Int " + es + ")", G: a.Type().(*types.Pointer).Elem()}
 		}
 	}
 	// the caller's own names stay reachable as my_<name> when a callee parameter shadows them
